@@ -113,9 +113,7 @@ def _mg_stream(ctx, n_inst):
             copt(inst["arank"], cnat), copt(inst["brank"], cnat), cz(M), cz(N), U.czl(inst["c"]))
         cases.append(f"({lit}, {cbool(did)})")
         meta.append(inst)
-    ok, di, df, raw = U.two_index_lists(ctx, ["OV.Rules.MatmulGemm"],
-                                        f"Definition cases : list mg_case := {clist(cases)}.\n"
-                                        "Definition dis_impl := mg_dis false cases.\nDefinition dis_fixed := mg_dis true cases.")
+    ok, di, df, raw = U.eval_cases(ctx, ["OV.Rules.MatmulGemm"], "mg_case", cases, "mg_dis", chunk=600)
     if not ok:
         ctx.tie_broken("correspondence", f"{FAM}:add_to_gemm:model-evaluation", raw[-800:])
         return
@@ -192,9 +190,7 @@ def _g2m_stream(ctx, n_inst):
             continue
         cases.append(f"({U.czl(ash)}, {U.czl(bsh)}, {U.czl(sc)}, {U.czl(csh)}, {cbool(inst['miss'] in ('transA', 'transB'))}, {cbool(did)})")
         meta.append(inst)
-    ok, di, df, raw = U.two_index_lists(ctx, ["OV.Rules.MatmulGemm"],
-                                        f"Definition cases : list g2m_case := {clist(cases)}.\n"
-                                        "Definition dis_impl := g2m_dis false cases.\nDefinition dis_fixed := g2m_dis true cases.")
+    ok, di, df, raw = U.eval_cases(ctx, ["OV.Rules.MatmulGemm"], "g2m_case", cases, "g2m_dis", chunk=600)
     if not ok:
         ctx.tie_broken("correspondence", f"{FAM}:gemm_to_matmul_add:model-evaluation", raw[-800:])
         return
@@ -377,19 +373,9 @@ def family(ctx):
     c1, m1 = _check_direct(ctx, bmod, 500 if q else 4000)
     c2, m2, fired = _reshape_hosts(ctx, bmod, 110 if q else 900)
     cases, meta = c1 + c2, m1 + m2
-    bodies = []
-    ok_all, di, df = True, [], []
-    for off in range(0, len(cases), 800):
-        chunk = cases[off:off + 800]
-        ok, a, b, raw = U.two_index_lists(ctx, ["OV.Rules.MatmulGemm"],
-                                          f"Definition cases : list cb_case := {clist(chunk)}.\n"
-                                          "Definition dis_impl := cb_dis false cases.\nDefinition dis_fixed := cb_dis true cases.")
-        if not ok:
-            ctx.tie_broken("correspondence", f"{FAM}:check_bcast:model-evaluation", raw[-800:])
-            ok_all = False
-            break
-        di += [off + x for x in a]
-        df += [off + x for x in b]
+    ok_all, di, df, raw = U.eval_cases(ctx, ["OV.Rules.MatmulGemm"], "cb_case", cases, "cb_dis", chunk=800)
+    if not ok_all:
+        ctx.tie_broken("correspondence", f"{FAM}:check_bcast:model-evaluation", raw[-800:])
     if ok_all:
         nbad, variant = U.settle(ctx, FAM, "check_if_not_need_reshape", meta, di, df, _defect_cb)
         ctx.sample({"family": FAM, "check_if_not_need_reshape": meta[len(meta) // 2]})
